@@ -9,6 +9,10 @@ NO_LEVEL = -1000
 
 
 def layer_real_name(l):
+    # world convention: a layer whose key starts with 'zz_' lives in module
+    # 'zzmod' (its dotted name sorts after the unit-test layer's)
+    if l.startswith('zz_'):
+        return 'zzmod.' + l
     return UNIT_NAME if l == '' else 'tests.' + l
 
 
@@ -17,6 +21,8 @@ def layer_abstract_name(real):
         return ''
     if real.startswith('tests.'):
         return real[len('tests.'):]
+    if real.startswith('zzmod.'):
+        return real[len('zzmod.'):]
     return real
 
 
